@@ -18,8 +18,8 @@ PROP = {
         "header": _HEADER,
         "case_type": "Ledger.case",
         "checks": {"corr": "Ledger.check_case", "mon_conservation": "mon_conservation", "mon_only_deposit": "mon_only_deposit",
-                   "mon_nonneg": "mon_nonneg"},
-        "kinds": {"corr": "corr", "mon_conservation": "monitor", "mon_only_deposit": "monitor", "mon_nonneg": "monitor"},
+                   "mon_nonneg": "mon_nonneg", "mon_escrow": "mon_escrow"},
+        "kinds": {"corr": "corr", "mon_conservation": "monitor", "mon_only_deposit": "monitor", "mon_nonneg": "monitor", "mon_escrow": "monitor"},
         "n_quick": 160,
         "n_thorough": 2000,
     }],
@@ -34,6 +34,6 @@ PROP = {
     "trusted_base": _C03["trusted_base"],
     "assumptions": [
         "identifiers contain no '/'",
-        "LST assets only: the native-token escrow statement (bank balance of delegated_pool) and NST balance adjustments are not covered by this package",
+        "native token: modelled incl. x/bank balances of the native stakers and of the escrow module account (C01_escrow); NST deposits as such are not modelled; UpdateNSTBalance is modelled, correspondence-checked and monitored but outside the theorems (wf_op)",
     ],
 }
